@@ -32,7 +32,14 @@ def _dts(torch):
     return [(torch.float32, "f32"), (torch.float64, "f64")]
 
 
+def _teq(torch, a, b):
+    """torch.equal that answers False for a result that could not be densified (see _sdense)"""
+    return torch.is_tensor(a) and torch.equal(a, b)
+
+
 def _close(zoo, a, b, scale=1.0):
+    if isinstance(a, str):
+        return False
     return a.shape == b.shape and zoo.close(a, b, dt=a.dtype if a.dtype.is_floating_point else None, scale=scale)
 
 
@@ -43,10 +50,10 @@ def _sdense(res):
         return res
     idx, val = res._indices(), res._values()
     if idx.dim() != 2 or idx.shape[0] != res.sparse_dim() or idx.shape[1] != val.shape[0]:
-        return val.new_full(tuple(res.shape), float("nan"))  # malformed: compares unequal to everything
+        return f"malformed sparse tensor: indices {tuple(idx.shape)} values {tuple(val.shape)} size {tuple(res.shape)}"
     for d in range(idx.shape[0]):
         if idx.shape[1] and (int(idx[d].min()) < 0 or int(idx[d].max()) >= res.shape[d]):
-            return val.new_full(tuple(res.shape), float("nan"))  # index out of range: compares unequal to everything
+            return f"sparse index out of range in dim {d}: [{int(idx[d].min())}, {int(idx[d].max())}] for size {res.shape[d]}"
     return res.to_dense()
 
 
@@ -275,13 +282,13 @@ def rtc_sparse(tier):
             lab = f"{dn}|b={b}|allzero"
             ok, res = rec.guard("make_sparse_from_indices_and_values/all_zero", lab, lambda: S.make_sparse_from_indices_and_values(idx, val, 4))
             if ok:
-                rec.check("make_sparse_from_indices_and_values/all_zero", lab, tuple(res.shape) == (*b, 4, 3) and res.dtype == dt and bool((_sdense(res) == 0).all()), "not the zero matrix")
+                rec.check("make_sparse_from_indices_and_values/all_zero", lab, tuple(res.shape) == (*b, 4, 3) and res.dtype == dt and _teq(torch, _sdense(res), torch.zeros(*b, 4, 3, dtype=dt)), "not the zero matrix")
 
     # sparse_eye
     for n in [1, 2, 5]:
         ok, res = rec.guard("sparse_eye/dense_def", f"n={n}", lambda: S.sparse_eye(n))
         if ok:
-            rec.check("sparse_eye/dense_def", f"n={n}", res.is_sparse and torch.equal(_sdense(res), torch.eye(n)), "not I")
+            rec.check("sparse_eye/dense_def", f"n={n}", res.is_sparse and _teq(torch, _sdense(res), torch.eye(n)), "not I")
 
     # to_sparse
     shapes = [(1,), (4,), (1, 1), (3, 4), (2, 3, 4), (2, 1, 3, 2)]
@@ -301,7 +308,7 @@ def rtc_sparse(tier):
                 lab = f"{dn}|shape={sh}|{kind}"
                 ok, res = rec.guard("to_sparse/roundtrip", lab, lambda: S.to_sparse(d.clone()))
                 if ok:
-                    rec.check("to_sparse/roundtrip", lab, res.is_sparse and tuple(res.shape) == tuple(d.shape) and res.dtype == dt and torch.equal(_sdense(res), d), "to_sparse(d).to_dense() != d")
+                    rec.check("to_sparse/roundtrip", lab, res.is_sparse and tuple(res.shape) == tuple(d.shape) and res.dtype == dt and _teq(torch, _sdense(res), d), "to_sparse(d).to_dense() != d")
 
     # sparse_getitem (1-d / 2-d sparse; ints, slices, combinations; empty results; empty sparse)
     def mk(d):
@@ -334,7 +341,9 @@ def rtc_sparse(tier):
                         ok, res = rec.guard(grp, lab, lambda: S.sparse_getitem(mk(d), ix if len(ix) > 1 else ix[0]))
                         if ok:
                             ok, rd = rec.guard(grp, lab + "|densify", lambda: _sdense(res) if torch.is_tensor(res) and res.is_sparse else torch.as_tensor(res, dtype=dt))
-                        if ok:
+                        if ok and isinstance(rd, str):
+                            rec.check(grp, lab, False, f"result is not a valid sparse tensor: {rd}")
+                        elif ok:
                             rec.check(grp, lab, tuple(rd.shape) == tuple(exp.shape) and torch.equal(rd.to(dt), exp), f"got {rd.tolist()} expected {exp.tolist()}")
 
     # sparse_repeat == dense.repeat
@@ -360,7 +369,7 @@ def rtc_sparse(tier):
                     lab = f"{dn}|shape={sh}|repeat={reps}|{kind}|{how}"
                     ok, res = rec.guard(f"sparse_repeat/{fam_}", lab, call)
                     if ok:
-                        rec.check(f"sparse_repeat/{fam_}", lab, tuple(res.shape) == tuple(exp.shape) and torch.equal(_sdense(res), exp), f"shape {tuple(res.shape)} vs {tuple(exp.shape)}; values differ from dense.repeat")
+                        rec.check(f"sparse_repeat/{fam_}", lab, tuple(res.shape) == tuple(exp.shape) and _teq(torch, _sdense(res), exp), f"shape {tuple(res.shape)} vs {tuple(exp.shape)}; values differ from dense.repeat")
     return rec.obligations()
 
 
